@@ -76,6 +76,9 @@ int main(int argc, char **argv) {
   ::emboss::TextOutputOptions o;
   o = o.Multiline(m != 0).WithComments(c != 0).WithNumericBase(static_cast<uint8_t>(b)).WithDigitGrouping(g != 0);
   if (m) o = o.WithIndent("  ");
+  std::cout << "WriteToString with allow_partial_output:\n"
+            << ::emboss::WriteToString(v, o.WithAllowPartialOutput(true)) << "\n";
+  if (!v.Ok()) return 0;
   std::string text = ::emboss::WriteToString(v, o);
   std::cout << "WriteToString:\n" << text << "\n";
   auto w = MAKE(b2.get(), n);
